@@ -64,6 +64,28 @@ pub fn gen(stream: &str, tier: &str, seed: u64, out: &mut dyn Write) -> bool {
                 }
             }
         }
+        "C06e" => {
+            use crate::shared::refcodec::{pschema_sexp, ref_encode, Choices};
+            let mut r = Rng(seed ^ 0xe06e);
+            let reps = n(20, 300);
+            for e in &tb.entries {
+                let s = tb.schema_of(e);
+                let ps = pschema_sexp(s);
+                for k in 0..reps {
+                    let m = if k == 0 { DynMsg::new(s, e.idx, false) } else { value(&mut r, s, e) };
+                    let canon = ref_encode(s, &m, &mut Choices { r: &mut r, canonical: true });
+                    let _ = writeln!(cx.out, "pbespecchk {} {} {} {} {}", e.name, ps, e.idx, m_sexp(&m), hex(&canon));
+                    for _ in 0..n(2, 5) {
+                        let alt = ref_encode(s, &m, &mut Choices { r: &mut r, canonical: false });
+                        let _ = writeln!(cx.out, "pbespecchk {} {} {} {} {}", e.name, ps, e.idx, m_sexp(&m), hex(&alt));
+                    }
+                    // the emitted encoder's own bytes must be in the relation (order fixed: no map with two entries)
+                    if !multi_entry(&m) && (crate::shared::msgverbs::FLAG_ON || m_same(&norm_negzero(&m), &m)) {
+                        let _ = writeln!(cx.out, "pbespecchk {} {} {} {} {}", e.name, ps, e.idx, m_sexp(&m), hex(&(e.ops.raw_enc)(&m)));
+                    }
+                }
+            }
+        }
         "C18e" => {
             let mut r = Rng(seed ^ 0xe18e);
             let reps = n(24, 480);
